@@ -327,6 +327,8 @@ Lemma listdir_spec l d pathmask : Forall safe (ds_cwd d) ->
   spec (listdir normpath ntsplit h l d pathmask) (fun _ => True).
 Proof.
   intro Hc. unfold listdir.
+  destruct (internal_unmounted l d).
+  { destruct (is_special _); apply spec_ret; exact I. }
   eapply spec_bind; [apply split_pathmask_spec; exact Hc|].
   intros [dir mask] Hdir. simpl in Hdir.
   destruct (is_special mask); [apply spec_ret; exact I|].
@@ -380,6 +382,7 @@ Lemma kill_spec l d pathmask : Forall safe (ds_cwd d) ->
   spec (kill normpath ntsplit h l d pathmask) (fun _ => True).
 Proof.
   intro Hc. unfold kill.
+  destruct (internal_unmounted l d); [apply spec_fail|].
   eapply spec_bind; [apply split_pathmask_spec; exact Hc|].
   intros [dir mask] Hdir. simpl in Hdir.
   eapply spec_bind; [apply dirs_files_spec; exact Hdir|].
@@ -470,12 +473,14 @@ Proof.
             do! out <-- listdir normpath ntsplit h l (get_drive s l) path ;;
             match out with
             | [] => failE dn_E_FILE_NOT_FOUND
-            | _ :: _ => do! _ <-- tell (HStatvfs (l, [])) ;; ret (s, out)
+            | _ :: _ => if internal_unmounted l (get_drive s l) then ret (s, out)
+                        else do! _ <-- tell (HStatvfs (l, [])) ;; ret (s, out)
             end) (fun r => state_ok (fst r))).
     { intro pathmask.
       eapply spec_bind with (Q := fun _ => True); [apply spec_lift; trivial|]. intros [l path] _.
       eapply spec_bind; [apply listdir_spec, Hd|]. intros out _.
       destruct out; [apply spec_fail|].
+      destruct (internal_unmounted l (get_drive s l)); [apply spec_ret; exact Hs|].
       apply spec_tell_then; [apply op_good_1; constructor|]. apply spec_ret. exact Hs. }
     destruct arg as [[|c m]|]; [apply spec_fail | apply G | apply G].
   - (* OPEN, LOAD, SAVE, ... *)
@@ -538,3 +543,111 @@ Proof.
   specialize (T o Io). unfold op_safe in T. rewrite Forall_forall in T. apply no_escape, T, Ip.
 Qed.
 End Contract.
+
+(* ---------- devices that are not mounted disk drives touch no host path ---------- *)
+Section NoHost.
+Variable normpath : str -> str.
+Variable ntsplit : str -> str * str.
+Variable h : host.
+
+Lemma bind_fail {A B} (m : M A) (f : A -> M B) e : m = ([], Err e) -> bindM m f = ([], Err e).
+Proof. intro H. subst m. reflexivity. Qed.
+
+Lemma reldir_unmounted l d path : ds_mounted d = false ->
+  exists e, get_native_reldir normpath h l d path = ([], Err e).
+Proof.
+  intro H. unfold get_native_reldir. destruct (mem c_slash path); [eexists; reflexivity|].
+  rewrite H. eexists. reflexivity.
+Qed.
+
+Lemma abspath_unmounted l d path defext isdir create : ds_mounted d = false ->
+  exists e, get_native_abspath normpath ntsplit h l d path defext isdir create = ([], Err e).
+Proof.
+  intro H. unfold get_native_abspath. destruct (ntsplit path) as [dirname name].
+  destruct (reldir_unmounted l d dirname H) as [e E]. exists e. apply bind_fail. exact E.
+Qed.
+
+Lemma split_pathmask_unmounted l d pathmask : ds_mounted d = false ->
+  exists e, split_pathmask normpath ntsplit h l d pathmask = ([], Err e).
+Proof.
+  intro H. unfold split_pathmask. destruct (mem c_slash pathmask); [eexists; reflexivity|].
+  destruct (ntsplit pathmask) as [dospath mask].
+  destruct (reldir_unmounted l d dospath H) as [e E]. rewrite E. eexists. reflexivity.
+Qed.
+
+Lemma listdir_unmounted l d pathmask : ds_mounted d = false ->
+  fst (listdir normpath ntsplit h l d pathmask) = [].
+Proof.
+  intro H. unfold listdir. destruct (internal_unmounted l d).
+  - destruct (is_special _); reflexivity.
+  - destruct (split_pathmask_unmounted l d pathmask H) as [e E]. rewrite (bind_fail _ _ e E). reflexivity.
+Qed.
+
+Lemma kill_unmounted l d pathmask : ds_mounted d = false ->
+  fst (kill normpath ntsplit h l d pathmask) = [].
+Proof.
+  intro H. unfold kill. destruct (internal_unmounted l d); [reflexivity|].
+  destruct (split_pathmask_unmounted l d pathmask H) as [e E]. rewrite (bind_fail _ _ e E). reflexivity.
+Qed.
+
+Lemma fst_bind_lift {A B} (r : res A) (f : A -> M B) :
+  (forall a, r = Ok a -> fst (f a) = []) -> fst (bindM (lift r) f) = [].
+Proof. intro H. unfold bindM, lift. simpl. destruct r; simpl; auto. Qed.
+
+Lemma fst_bind_nil {A B} (m : M A) (f : A -> M B) :
+  fst m = [] -> (forall a, snd m = Ok a -> fst (f a) = []) -> fst (bindM m f) = [].
+Proof. intros H1 H2. unfold bindM. destruct (snd m) eqn:E; simpl; rewrite H1; auto. simpl. apply H2. reflexivity. Qed.
+
+(* a state in which no drive is mounted (in particular: only @: and devices exist): no statement reaches the host *)
+Theorem exec_unmounted s st : (forall l, ds_mounted (get_drive s l) = false) ->
+  fst (exec normpath ntsplit h s st) = [].
+Proof.
+  intro U.
+  assert (A : forall l path defext isdir create (B : Type) (f : npath -> M B),
+             fst (bindM (get_native_abspath normpath ntsplit h l (get_drive s l) path defext isdir create) f) = []).
+  { intros. destruct (abspath_unmounted l _ path defext isdir create (U l)) as [e E]. rewrite (bind_fail _ _ e E). reflexivity. }
+  destruct st as [name|name|name|name|a b|arg|name mode program]; simpl.
+  - destruct name; [reflexivity|]. apply fst_bind_lift. intros [l path] _.
+    destruct (reldir_unmounted l (get_drive s l) path (U l)) as [e E]. rewrite (bind_fail _ _ e E). reflexivity.
+  - destruct name; [reflexivity|]. apply fst_bind_lift. intros [l path] _. apply A.
+  - destruct name; [reflexivity|]. apply fst_bind_lift. intros [l path] _. apply A.
+  - destruct name; [reflexivity|]. apply fst_bind_lift. intros [l path] _.
+    apply fst_bind_nil; [apply kill_unmounted, U | reflexivity].
+  - apply fst_bind_lift. intros [l1 p1] _. apply A.
+  - assert (G : forall pathmask,
+      fst (do! '(l, path) <-- lift (split_device (st_cur s) pathmask) ;;
+           do! out <-- listdir normpath ntsplit h l (get_drive s l) path ;;
+           match out with
+           | [] => failE dn_E_FILE_NOT_FOUND
+           | _ :: _ => if internal_unmounted l (get_drive s l) then ret (s, out)
+                       else do! _ <-- tell (HStatvfs (l, [])) ;; ret (s, out)
+           end) = []).
+    { intro pathmask. apply fst_bind_lift. intros [l path] _.
+      apply fst_bind_nil; [apply listdir_unmounted, U|].
+      intros out Hout. destruct out; [reflexivity|].
+      destruct (internal_unmounted l (get_drive s l)) eqn:IU; [reflexivity|].
+      (* a non-empty listing on an unmounted drive only comes from the internal drive *)
+      exfalso. unfold listdir in Hout. rewrite IU in Hout.
+      destruct (split_pathmask_unmounted l (get_drive s l) path (U l)) as [e E].
+      rewrite (bind_fail _ _ e E) in Hout. discriminate. }
+    destruct arg as [[|c m]|]; [reflexivity | apply G | apply G].
+  - destruct name; [reflexivity|]. apply fst_bind_lift. intros [l spec0] _. rewrite (U l). reflexivity.
+Qed.
+
+(* OPEN / LOAD / SAVE / ... on a device that is not a disk drive (SCRN: KYBD: LPTn: COMn: CAS1:, the DOS device
+   files CON AUX PRN NUL) or on an unknown device: the statement layer hands it to another device class or
+   fails; DiskDevice is not entered and no host path is touched *)
+Theorem exec_open_nondisk s name mode program e : open_device (st_cur s) name = Err e ->
+  fst (exec normpath ntsplit h s (SOpen name mode program)) = [].
+Proof.
+  intro H. simpl. destruct name; [reflexivity|]. rewrite H. reflexivity.
+Qed.
+
+(* the same per statement: a statement addressed to one unmounted drive *)
+Theorem exec_open_unmounted s name mode program l spec0 :
+  open_device (st_cur s) name = Ok (l, spec0) -> ds_mounted (get_drive s l) = false ->
+  fst (exec normpath ntsplit h s (SOpen name mode program)) = [].
+Proof.
+  intros H U. simpl. destruct name; [reflexivity|]. rewrite H. unfold lift, bindM. simpl. rewrite U. reflexivity.
+Qed.
+End NoHost.
